@@ -274,6 +274,20 @@ CLAIMED["C06"] = dict(
          "proof over the control loop. Volume-curve tanks are a recorded finding (np.interp clamps), excluded from the sweep.",
     technique="Coq proof (field identity, floor arithmetic over R) + interval-certified check of reported tank trajectories")
 
+CLAIMED["C05"] = dict(
+    text="Proof over a model of the post-solve control pass of run_sim (the three status properties, user and internal actions, the stable "
+         "priority sort, ControlChangeTracker, accept-or-solve-again): for every link state, every set of triggered controls and priorities, "
+         "a triggered command holds on the accepted state unless the internal status holds the link closed or a triggered control of >= priority "
+         "conflicts (status and setting); the accepted state equals the solved state; lifted over the whole trial loop for an arbitrary solver "
+         "oracle; a command that changes the status forces another solve; the tank-level backtrack lies inside the step and the earlier of two "
+         "crossings has the larger backtrack (reals, Flocq Zfloor). Ties decided inside coqc: every traced post-solve pass of real runs equals "
+         "after_solve (vm_compute); the truth value the implementation gave each condition equals value_cond/tank_cond on the REPORTED value (exact "
+         "rationals); threshold crossings overshoot by < 2 s of flow (interval). The statement itself is evaluated on the reported tables of the same runs.",
+    ref="DESIGN.md section 5 C05",
+    note="Trusted: Coq kernel + vm_compute; stdlib real axioms for the backtrack theorems only; harness tracing wrappers; coq-interval. Modelled, not "
+         "verified: which controls a solved state triggers (an oracle in the theorems; observed per pass in the tie).",
+    technique="Coq proof (induction over action lists, sortedness/permutation, tracker invariant) + vm_compute differential of every traced post-solve pass")
+
 NOT_YET = {
 }
 
